@@ -69,25 +69,61 @@ def check(repo, tier):
             ok = l2rules.invariant_obligation(run, 'C16', 'D1', repo, sc, res, entry, scen, 'coefficient tensor', chain=False)
             bad = []
             nmodes = d if which == 'mandy_cm' else p
-            calls = [e for e in sc.events('call') if e['callee'].name == 'pinv' and any(c.endswith(which) for c in e.get('callers', [])[-2:])]
+            calls = [e for e in sc.events('call') if e['callee'].name in ('pinv', 'svd') and hasattr(e['args'][0] if e['args'] else None, '_attrs')]
+            unknown = []
             if not calls:
-                bad.append('the pseudoinverse of the transformed data tensor is not taken')
+                unknown.append('neither TT.pinv nor TT.svd is applied to the transformed data tensor')
             else:
                 c = calls[0]
-                index = c['args'][1] if len(c['args']) > 1 else c['kwargs'].get('index')
+                names = ['self', 'index', 'threshold', 'ortho_l', 'ortho_r', 'overwrite'] if c['callee'].name == 'pinv' else ['self', 'index', 'threshold', 'max_rank', 'ortho_l', 'ortho_r', 'overwrite']
+                argd = dict(zip(names, c['args']))
+                argd.update(c['kwargs'])
+                index = argd.get('index')
                 if index != nmodes:
-                    bad.append(f'pinv splits at index {index} instead of the snapshot core {nmodes}')
-                if c['kwargs'].get('threshold', c['args'][2] if len(c['args']) > 2 else 0.0) != thr:
-                    bad.append(f'pinv is called with threshold {c["kwargs"].get("threshold", "default")} instead of the caller\'s {thr}')
-                if c['kwargs'].get('ortho_r') is False:
+                    bad.append(f'{c["callee"].name} splits at index {index} instead of the snapshot core {nmodes}')
+                if argd.get('threshold', 0.0) != thr:
+                    bad.append(f'{c["callee"].name} is called with threshold {argd.get("threshold", "default")} instead of the caller\'s {thr}')
+                if argd.get('ortho_r', True) is False:
                     psi = c['args'][0]
-                    tail = psi._attrs['cores'][index:] if hasattr(psi, '_attrs') else []
+                    tail = psi._attrs['cores'][index:] if hasattr(psi, '_attrs') and isinstance(index, int) else []
                     for cc in tail:
                         v = cc
                         while isinstance(v, Arr) and v.tags.get('const') not in ('eye', 'eye-reshaped') and v.parents and v.buf is v.parents[0].buf:
                             v = v.parents[0]
                         if not (isinstance(v, Arr) and v.tags.get('const') in ('eye', 'eye-reshaped')):
                             bad.append('ortho_r=False although a skipped core is not an identity (not right-orthonormal)')
+            # value level: the last two cores are  U diag(1/s) V E y^T  with U, s, V of ONE decomposition of the orthonormalised (last mode core, snapshot core) pair
+            if ok and res._attrs['order'] == nmodes + 1 and not bad:
+                from . import mx
+                from .p_c03 import working_object
+                t_obj, init = working_object(sc)
+                steps = l2rules.sweep_steps(sc, t_obj, init) if t_obj is not None else []
+                rc = res._attrs['cores']
+                got = l2rules.pair_mx(rc[-2], rc[-1])
+                got = mx.canon(got) if got is not None else None
+                yT = ('src', id(y), 'T', None)
+                central = [st for st in steps if st[0] == [nmodes - 1, nmodes]]
+                if got is None or not central:
+                    unknown.append('no central decomposition step on the (last mode core, snapshot core) pair was found')
+                elif not got or got[-1] != yT:
+                    unknown.append(f'the last two cores are  {mx.show(got)}: y^T is not the last factor')
+                else:
+                    sb, su, _n = l2rules.value_preservation(sc, t_obj, init, truncating=bool(thr), skip_last=True)
+                    bad += sb
+                    unknown += su
+                    slots, before, after = central[-1]
+                    sw = mx.swap_inverse(got[:-1])
+                    sw = mx.untruncate(sw) if thr else mx.canon(sw)
+                    want = mx.canon(l2rules.pair_mx(before[nmodes - 1], before[nmodes]))
+                    if not any(f[0] == 'Sinv' for f in got):
+                        (bad if any(f[0] == 'S' for f in got) else unknown).append(f'the last two cores are  {mx.show(got)}: the singular values are not inverted')
+                    elif sw is None:
+                        unknown.append('truncated factors of an unregistered decomposition')
+                    elif sw != want:
+                        new_atoms = {f[:2] for f in sw if f[0] == 'src'} - {f[:2] for f in want if f[0] == 'src'}
+                        (unknown if new_atoms else bad).append(f'with diag(1/s) replaced by diag(s) and y^T removed the last two cores give  {mx.show(sw)}  but the decomposed pair is  {mx.show(want)}')
+            if unknown and not bad:
+                raise AnalysisError(f'{scen}: undecided: ' + '; '.join(unknown[:2]))
             if ok:
                 if res._attrs['order'] != nmodes + 1:
                     bad.append(f'result has order {res._attrs["order"]} instead of {nmodes + 1}')
